@@ -68,9 +68,13 @@ class HeaderAST:
         seen = set()
         uniq = []
         for d in self.decls:
-            if d.get("id") in seen:
+            # one declaration can match several filters, each dumped by its own clang run (ids differ between runs): the
+            # position in the header identifies it
+            rb = (d.get("range") or {}).get("begin") or {}
+            key = (d.get("kind"), d.get("name"), rb.get("offset", (rb.get("expansionLoc") or {}).get("offset", d.get("id"))))
+            if key in seen:
                 continue
-            seen.add(d.get("id"))
+            seen.add(key)
             uniq.append(d)
         self.decls = uniq
 
@@ -246,7 +250,7 @@ def inline_helpers(h: "HeaderAST", f: dict, depth: int = 2) -> dict:
         counter[0] += 1
         tag = f"__{g.get('name')}_{counter[0]}"
         params = [p for p in g.get("inner", []) if p.get("kind") == "ParmVarDecl"]
-        args = call_args(call)
+        args = list((call.get("inner") or [])[1:])        # unstripped: the conversions applied to an argument stay visible
         if len(params) != len(args):
             return None
         amap = {p.get("name"): a for p, a in zip(params, args)}
@@ -260,6 +264,21 @@ def inline_helpers(h: "HeaderAST", f: dict, depth: int = 2) -> dict:
                 pt = (p.get("type") or {}).get("qualType", "")
                 if pt.isidentifier() and pt != it:
                     tmap[pt] = it
+                elif pt != it:
+                    # `const T &` against `const unsigned char &`: what is left between the common head and tail
+                    a = 0
+                    while a < min(len(pt), len(it)) and pt[a] == it[a]:
+                        a += 1
+                    while a > 0 and (pt[a - 1].isalnum() or pt[a - 1] == "_"):
+                        a -= 1
+                    b = 0
+                    while b < min(len(pt), len(it)) - a and pt[len(pt) - 1 - b] == it[len(it) - 1 - b]:
+                        b += 1
+                    while b > 0 and (pt[len(pt) - b].isalnum() or pt[len(pt) - b] == "_"):
+                        b -= 1
+                    mid_p, mid_i = pt[a:len(pt) - b].strip(), it[a:len(it) - b].strip()
+                    if mid_p.isidentifier() and mid_i:
+                        tmap[mid_p] = mid_i
         locals_ = {v.get("name") for s_ in statements(g) for v in walk(s_) if v.get("kind") == "VarDecl"}
 
         def rewrite(n):
@@ -306,6 +325,14 @@ def inline_helpers(h: "HeaderAST", f: dict, depth: int = 2) -> dict:
                 out.append(dict(st, inner=inner))
                 continue
             target_call = None
+            if isinstance(st, dict) and st.get("kind") == "ReturnStmt" and st.get("inner") and strip(st["inner"][0]).get("kind") == "CallExpr" and d > 0:
+                # `return g(a, b);`
+                g = helper_of(strip(st["inner"][0]))
+                inst = instantiate(g, strip(st["inner"][0])) if g is not None else None
+                if inst is not None and inst[1] is not None:
+                    out += expand_block(inst[0], d - 1)
+                    out.append(dict(st, inner=[inst[1]]))
+                    continue
             if isinstance(st, dict) and st.get("kind") == "BinaryOperator" and st.get("opcode") == "=":
                 rhs = strip(st["inner"][1])
                 if rhs.get("kind") == "CallExpr":
